@@ -59,10 +59,3 @@ def noHolderPanic : Res → Prop
   | .fault (.panic s) => ¬ (s.startsWith "holder.rs" ∨ s.startsWith "flow.rs S" ∨ s.startsWith "flow.rs A")
   | _ => True
 
-theorem C09_holder_step (hack : Bool) (f : Flow) (op : Op) (h1 : holderOk f) (h2 : sendOk f) :
-    holderOk (f.step hack op).1 ∧ sendOk (f.step hack op).1 := by
-  unfold Flow.step
-  cases hst : f.st <;> cases op <;> simp only [] <;>
-    (try (simp [holderOk, sendOk, hst] at h1 h2 ⊢; done)) <;>
-    (repeat' split) <;>
-    (simp_all [holderOk, sendOk])
